@@ -41,6 +41,9 @@ fn supervise(id: &str, tier: &str, replay_json: Option<String>) -> i32 {
     let wall_cap = Duration::from_secs(
         std::env::var("PVMC_WALL_CAP_S").ok().and_then(|s| s.parse().ok()).unwrap_or(if tier == "quick" { 900 } else { 6 * 3600 }),
     );
+    // a single case in flight for longer than this is a hang of the library (cases take
+    // milliseconds to seconds); the child is stopped and the cases in flight are triaged
+    let stall_cap = std::env::var("PVMC_STALL_S").ok().and_then(|s| s.parse::<f64>().ok()).unwrap_or(if tier == "quick" { 90.0 } else { 600.0 });
     let run_child = |replay: Option<&str>, cap: Duration, quiet: bool| -> (Option<i32>, bool) {
         let mut cmd = Command::new(&exe);
         cmd.arg(id).arg(tier).env("PVMC_CHILD", "1").env("PVMC_PROGRESS", &dir);
@@ -52,11 +55,14 @@ fn supervise(id: &str, tier: &str, replay_json: Option<String>) -> i32 {
         }
         let mut child = cmd.spawn().expect("spawn child");
         let start = Instant::now();
+        let mut polls = 0u64;
         loop {
             match child.try_wait() {
                 Ok(Some(st)) => return (st.code(), false),
                 Ok(None) => {
-                    if start.elapsed() > cap {
+                    polls += 1;
+                    let stalled = replay.is_none() && polls % 100 == 0 && ev::oldest_in_flight_s(&dir).map_or(false, |a| a > stall_cap);
+                    if start.elapsed() > cap || stalled {
                         let _ = child.kill();
                         let _ = child.wait();
                         return (None, true);
@@ -75,14 +81,23 @@ fn supervise(id: &str, tier: &str, replay_json: Option<String>) -> i32 {
             let candidates = ev::read_progress(&dir);
             eprintln!(
                 "child {} ({} case(s) in flight); re-running them one at a time",
-                if timed_out { "exceeded the wall cap".to_string() } else { format!("ended abnormally ({:?})", code) },
+                if timed_out { "exceeded the wall cap or a case stalled".to_string() } else { format!("ended abnormally ({:?})", code) },
                 candidates.len()
             );
             let mut confirmed: Vec<(Replay, String)> = vec![];
             let mut reported = false;
-            for c in &candidates {
-                let rj = json!({"family": c.family, "index": c.index, "schedule": c.schedule, "data": c.data}).to_string();
-                let (cc, to) = run_child(Some(&rj), Duration::from_secs(120), false);
+            let outcomes: Vec<(Option<i32>, bool)> = std::thread::scope(|sc| {
+                let hs: Vec<_> = candidates
+                    .iter()
+                    .map(|c| {
+                        let rj = json!({"family": c.family, "index": c.index, "schedule": c.schedule, "data": c.data}).to_string();
+                        let run_child = &run_child;
+                        sc.spawn(move || run_child(Some(&rj), Duration::from_secs(120), false))
+                    })
+                    .collect();
+                hs.into_iter().map(|h| h.join().unwrap_or((None, false))).collect()
+            });
+            for (c, (cc, to)) in candidates.iter().zip(outcomes) {
                 match cc {
                     Some(0) => {}
                     Some(1) => reported = true,
